@@ -56,68 +56,17 @@ func fieldSetters(p *Prog, f *types.Var) map[*ssa.Function]int {
 }
 
 // C07 — HardState monotone.
-func c07HardState(c *Check) {
+// gTermGate — C07.L/C07.G: Step's three-way term gate. A message of a lower (non-zero) term is
+// confined to the lower-term arm, and that arm changes nothing and dispatches nothing.
+func gTermGate(c *Check) {
 	p := c.P
 	termF := p.Field("raft", "raft", "Term")
 	voteF := p.Field("raft", "raft", "Vote")
 	committedF := p.Field("raft", "raftLog", "committed")
-	raftLogF := p.Field("raft", "raft", "raftLog")
 	step := p.Method("raft", "raft", "Step")
-	loadState := p.Method("raft", "raft", "loadState")
 	getTerm := p.Method("raftpb", "Message", "GetTerm")
-	hsGetTerm := p.Method("raftpb", "HardState", "GetTerm")
-	if termF == nil || step == nil {
+	if termF == nil || step == nil || getTerm == nil {
 		return
-	}
-	// C07.T: stores to raft.Term and the arguments that reach them
-	setters := fieldSetters(p, termF)
-	for _, st := range p.StoresTo(termF) {
-		if st.Fresh || st.Whole {
-			continue
-		}
-		fi := p.Info(st.Fn)
-		v := fi.Sym(st.Val)
-		site := p.site(st.Instr)
-		if _, isSetter := setters[st.Fn]; isSetter {
-			c.Ok("C07.T", "store raft.Term from a parameter", fnName(st.Fn), site, "value is a parameter; checked at every call site that supplies it", v.Key())
-			continue
-		}
-		if st.Fn == loadState && v.K == KCall && v.Fn == hsGetTerm {
-			ok := true
-			for _, cs := range p.CallsTo(loadState) {
-				if cs.Caller != p.Func("raft", "newRaft") {
-					ok = false
-				}
-			}
-			c.Result(ok, "C07.R", "store raft.Term = state.GetTerm()", fnName(st.Fn), site, "term is reloaded from the persisted HardState only at start-up", "")
-			loadStateComplete(c, "C07.R")
-			continue
-		}
-		base := storeBase(fi, st)
-		pr := p.Prove(fi, st.Instr, []Req{ReqCmp(v, ">=", FieldOf(base, termF))})
-		c.Result(pr.OK, "C07.T", "store raft.Term", fnName(st.Fn), site, "new term >= old term", describeProof(pr), pr.Chain...)
-	}
-	for fn, idx := range setters {
-		for _, cs := range p.CallsTo(fn) {
-			args := callArgs(cs.Instr)
-			if idx >= len(args) {
-				continue
-			}
-			if _, pass := setters[cs.Caller]; pass {
-				if prm, ok := args[idx].(*ssa.Parameter); ok && cs.Caller.Params[setters[cs.Caller]] == prm {
-					continue // pass-through, checked at the caller's call sites
-				}
-			}
-			cfi := p.Info(cs.Caller)
-			if !cfi.Live(cs.Instr) {
-				continue
-			}
-			arg := cfi.Sym(args[idx])
-			recv := cfi.Sym(args[0])
-			construct := fmt.Sprintf("term argument of %s: %s", fn.Name(), sanitizeKey(arg.Key()))
-			pr := p.Prove(cfi, cs.Instr, []Req{ReqCmp(arg, ">=", FieldOf(recv, termF))})
-			c.Result(pr.OK, "C07.T", construct, fnName(cs.Caller), p.site(cs.Instr), "term passed to a state transition is >= the current term", describeProof(pr), pr.Chain...)
-		}
 	}
 	// C07.L: the lower-term arm of Step does nothing that acts in the stale term
 	sfi := p.Info(step)
@@ -175,8 +124,113 @@ func c07HardState(c *Check) {
 				}
 			}
 		}
+		// C07.G: nothing outside that arm runs for a message of a lower (non-zero) term: the
+		// three-way gate sends every such message into the lower-term arm
+		lt := bfCmp(CallSym(getTerm, m), "<", FieldOf(r, termF))
+		spec := bfOr(bfCmp(CallSym(getTerm, m), "==", constSym(0)), bfNot(lt))
+		nGate := 0
+		for _, b := range step.Blocks {
+			if reach[b.Index] || !sfi.Reach[b.Index] {
+				continue
+			}
+			for _, in := range sfi.liveInstrs(b.Index) {
+				ci, ok := in.(ssa.CallInstruction)
+				if !ok {
+					continue
+				}
+				dyn := ci.Common().StaticCallee() == nil && !ci.Common().IsInvoke()
+				if _, isB := ci.Common().Value.(*ssa.Builtin); isB {
+					continue
+				}
+				acts := dyn
+				if !acts {
+					for l := range p.CallWrites(ci) {
+						if f, isF := l.(*types.Var); isF && !p.isStatsField(f) {
+							acts = true
+						}
+					}
+				}
+				if !acts {
+					continue
+				}
+				nGate++
+				ok2, und, detail := sfi.pathsImplyOpt(in, -1, spec, true)
+				if und {
+					c.Undecided("C07.G", "effect behind the term gate: "+sanitizeKey(sfi.Sym(valueOfCall(ci)).Key()), fnName(step), p.site(in), "m.Term == 0 || !(m.Term < r.Term) on every path", detail)
+				} else {
+					c.Result(ok2, "C07.G", "effect behind the term gate: "+sanitizeKey(sfi.Sym(valueOfCall(ci)).Key()), fnName(step), p.site(in), "m.Term == 0 || !(m.Term < r.Term) on every path (a message of a lower term reaches only the lower-term arm)", detail)
+				}
+			}
+		}
+		c.Result(nGate > 0, "C07.G", "effects behind the term gate", fnName(step), p.Pos(step.Pos()), "Step has state-changing calls behind the gate", fmt.Sprint(nGate))
 		c.Result(len(bad) == 0, "C07.L", "lower-term arm of Step is isolated", fnName(step), p.Pos(step.Pos()), "a message from a lower term never changes term/vote/commit/log, is never dispatched, never acknowledges writes", fmt.Sprintf("%d blocks, %d calls; %s", len(reach), nCalls, strings.Join(bad, "; ")))
 	}
+}
+
+func c07HardState(c *Check) {
+	p := c.P
+	termF := p.Field("raft", "raft", "Term")
+	voteF := p.Field("raft", "raft", "Vote")
+	committedF := p.Field("raft", "raftLog", "committed")
+	raftLogF := p.Field("raft", "raft", "raftLog")
+	step := p.Method("raft", "raft", "Step")
+	loadState := p.Method("raft", "raft", "loadState")
+	_ = p.Method("raftpb", "Message", "GetTerm")
+	hsGetTerm := p.Method("raftpb", "HardState", "GetTerm")
+	if termF == nil || step == nil {
+		return
+	}
+	// C07.T: stores to raft.Term and the arguments that reach them
+	setters := fieldSetters(p, termF)
+	for _, st := range p.StoresTo(termF) {
+		if st.Fresh || st.Whole {
+			continue
+		}
+		fi := p.Info(st.Fn)
+		v := fi.Sym(st.Val)
+		site := p.site(st.Instr)
+		if _, isSetter := setters[st.Fn]; isSetter {
+			c.Ok("C07.T", "store raft.Term from a parameter", fnName(st.Fn), site, "value is a parameter; checked at every call site that supplies it", v.Key())
+			continue
+		}
+		if st.Fn == loadState && v.K == KCall && v.Fn == hsGetTerm {
+			ok := true
+			for _, cs := range p.CallsTo(loadState) {
+				if cs.Caller != p.Func("raft", "newRaft") {
+					ok = false
+				}
+			}
+			c.Result(ok, "C07.R", "store raft.Term = state.GetTerm()", fnName(st.Fn), site, "term is reloaded from the persisted HardState only at start-up", "")
+			loadStateComplete(c, "C07.R")
+			continue
+		}
+		base := storeBase(fi, st)
+		pr := p.Prove(fi, st.Instr, []Req{ReqCmp(v, ">=", FieldOf(base, termF))})
+		c.Result(pr.OK, "C07.T", "store raft.Term", fnName(st.Fn), site, "new term >= old term", describeProof(pr), pr.Chain...)
+	}
+	for fn, idx := range setters {
+		for _, cs := range p.CallsTo(fn) {
+			args := callArgs(cs.Instr)
+			if idx >= len(args) {
+				continue
+			}
+			if _, pass := setters[cs.Caller]; pass {
+				if prm, ok := args[idx].(*ssa.Parameter); ok && cs.Caller.Params[setters[cs.Caller]] == prm {
+					continue // pass-through, checked at the caller's call sites
+				}
+			}
+			cfi := p.Info(cs.Caller)
+			if !cfi.Live(cs.Instr) {
+				continue
+			}
+			arg := cfi.Sym(args[idx])
+			recv := cfi.Sym(args[0])
+			construct := fmt.Sprintf("term argument of %s: %s", fn.Name(), sanitizeKey(arg.Key()))
+			pr := p.Prove(cfi, cs.Instr, []Req{ReqCmp(arg, ">=", FieldOf(recv, termF))})
+			c.Result(pr.OK, "C07.T", construct, fnName(cs.Caller), p.site(cs.Instr), "term passed to a state transition is >= the current term", describeProof(pr), pr.Chain...)
+		}
+	}
+	gTermGate(c)
 	// C07.H: emission of HardState
 	rdHS := p.Field("raft", "Ready", "HardState")
 	prevHS := p.Field("raft", "RawNode", "prevHardSt")
